@@ -34,12 +34,12 @@ Consume == l' = l + 1 /\ UNCHANGED <<tid, cf>>
 Silent == UNCHANGED <<tid, l, cf>>
 NoOp == UNCHANGED vars
 
-TBodyStart == IsEv("BodyStart") /\ WorkerTake(Ev.i) /\ H3 /\ H4 /\ Consume
+TBodyStart == IsEv("BodyStart") /\ WorkerTake(Ev.i) /\ H3 /\ H4 /\ H5 /\ Consume
 
 \* an accepted update is observed when it is put on the checkpoint queue; a rejected one when OrphanedChildException is built
 TCkpt == /\ IsEv("Ckpt")
          /\ LET i == Ev.i IN
-            /\ wph[i] = "run" /\ BodyStep(i) /\ H3
+            /\ wph[i] = "run" /\ BodyStep(i) /\ H3 /\ H5
             /\ IF Ev.rej
                  THEN i \notin chk /\ fout'[i] = "orphan"
                  ELSE /\ i \in chk /\ i \notin chk'
@@ -47,55 +47,66 @@ TCkpt == /\ IsEv("Ckpt")
                             [] Ev.k = "start" -> sub[i] = "start"
                             [] Ev.k = "succeed" -> sub[i] = "succeed"
                             [] Ev.k = "wstart" -> sub[i] = "wstart"
-                            [] Ev.k = "ctxEnd" -> sub[i] = "atom" /\ fout'[i] \in {"ok", "fail"}
+                            [] Ev.k = "ctxEnd" -> sub[i] = "atom" /\ sub'[i] = "ctxWait"
                             [] OTHER -> FALSE
          /\ Consume
 
 TBodyEnd == /\ IsEv("BodyEnd")
             /\ LET i == Ev.i IN
                IF Ev.out \in {"susp", "tsusp", "bte"}
-                 THEN wph[i] = "run" /\ sub[i] = (IF Ev.out = "bte" THEN "atom" ELSE "park") /\ Atom(i) = Ev.out /\ i \notin chk /\ BodyStep(i) /\ H3
-                 ELSE fout[i] = Ev.out /\ wph[i] # "run" /\ NoOp
+                 THEN /\ wph[i] = "run" /\ i \notin chk /\ BodyStep(i) /\ H3 /\ H5 /\ fout'[i] = Ev.out
+                      /\ Ev.out # "bte" => (sub[i] = "park" /\ Atom(i) = Ev.out)
+                 ELSE IF Ev.out \in {"ok", "fail"}
+                        THEN wph[i] = "run" /\ sub[i] = "ctxWait" /\ i \notin chk /\ BodyStep(i) /\ H3 /\ H5 /\ fout'[i] = Ev.out
+                        ELSE fout[i] = Ev.out /\ wph[i] # "run" /\ NoOp
             /\ Consume
 
 \* the completion event is set for the first time (inside a done-callback): the deciding step of some callback
 CbSnapW(i) == snap' = [snap EXCEPT ![i] = {j \in Br : j # i /\ wph[j] = "run"}] /\ UNCHANGED <<suspSnap, resub>>
 CbSnapS(i) == suspSnap' = (IF suspExc' # suspExc THEN snap[i] ELSE suspSnap) /\ UNCHANGED <<snap, resub>>
 TEvSet == /\ IsEv("EvSet") /\ ~event
-          /\ \E i \in Br : \/ (CbWrite(i) /\ CbSnapW(i) /\ H4) \/ (CbDecide(i) /\ H3 /\ H4) \/ (CbScan(i) /\ CbSnapS(i) /\ H4)
+          /\ \/ \E i \in Br : \/ (CbWrite(i) /\ CbSnapW(i) /\ H4 /\ H5) \/ (CbDecide(i) /\ H3 /\ H4 /\ H5)
+                              \/ (CbScan(i) /\ CbSnapS(i) /\ H4 /\ H5)
+             \/ (TimerRefreshed(FALSE) /\ H3 /\ H4 /\ UNCHANGED <<tphAtSusp, stale>>)      \* failed refresh checkpoint (fixed code)
           /\ event' /\ suspExc' = Ev.susp
           /\ Consume
 
-TResubmit == IsEv("Resubmit") /\ TimerStep(Ev.i) /\ Consume
+\* reset_to_pending() of a due branch (code as it is: right after it was popped from the timer heap) ...
+TResubmit == IsEv("Resubmit") /\ TimerPopStep(Ev.i) /\ Consume
+\* ... then the timer thread enqueues the empty refresh checkpoint
+TRefresh == IsEv("Refresh") /\ TimerPut /\ H3 /\ H4 /\ UNCHANGED <<tphAtSusp, stale>> /\ Consume
 
-TBuild == /\ IsEv("Build") /\ MainBuild /\ H3 /\ H4
+TBuild == /\ IsEv("Build") /\ MainBuild /\ H3 /\ H4 /\ H5
           /\ Len(items') = Len(Ev.items) /\ (\A k \in 1..Len(Ev.items) : items'[k] = Ev.items[k]) /\ reason' = Ev.reason
           /\ Consume
 
 TExReturn == /\ IsEv("ExReturn")
              /\ \/ (Ev.how = "returned" /\ mpc = "ParentCkpt" /\ NoOp)
-                \/ (Ev.how = "suspended" /\ MainRaiseSuspend /\ H3 /\ H4)
+                \/ (Ev.how = "suspended" /\ MainRaiseSuspend /\ H3 /\ H4 /\ H5)
                 \/ (Ev.how = "raised" /\ mpc = "Returned" /\ result = "raised" /\ NoOp)
              /\ Consume
 
-TParentCkpt == IsEv("ParentCkpt") /\ MainParentCkpt /\ H3 /\ H4 /\ Consume
+TParentCkpt == IsEv("ParentCkpt") /\ MainParentCkpt /\ H3 /\ H4 /\ H5 /\ Consume
 
 SilentStep ==
   /\ l <= Len(Tr)
-  /\ \/ ((MainSubmit \/ MainWake \/ MainCancel) /\ H3 /\ H4)
+  /\ \/ ((MainSubmit \/ MainWake \/ MainCancel) /\ H3 /\ H4 /\ H5)
+     \* the refresh checkpoint of the timer thread returns (a failing one sets the completion event: observed as EvSet)
+     \/ (TimerRefreshed(TRUE) /\ H3 /\ H4 /\ UNCHANGED <<tphAtSusp, stale>>)
+     \/ (TimerRefreshed(FALSE) /\ H3 /\ H4 /\ UNCHANGED <<tphAtSusp, stale>> /\ event' = event)
      \/ \E i \in Br :
           \* body steps without an observable effect: the orphan check that passes, the function, atom selection
-          \/ (wph[i] = "run" /\ BodyStep(i) /\ H3 /\ fout'[i] = fout[i] /\ (i \in chk' \/ i \notin chk)
+          \/ (wph[i] = "run" /\ BodyStep(i) /\ H3 /\ H5 /\ fout'[i] = fout[i] /\ (i \in chk' \/ i \notin chk)
               /\ ~(i \in chk /\ i \notin chk'))
           \* done-callback steps that do not set the completion event for the first time
-          \/ (CbWrite(i) /\ CbSnapW(i) /\ H4 /\ event' = event)
-          \/ (CbDecide(i) /\ H3 /\ H4 /\ event' = event)
-          \/ (CbScan(i) /\ CbSnapS(i) /\ H4 /\ event' = event)
+          \/ (CbWrite(i) /\ CbSnapW(i) /\ H4 /\ H5 /\ event' = event)
+          \/ (CbDecide(i) /\ H3 /\ H4 /\ H5 /\ event' = event)
+          \/ (CbScan(i) /\ CbSnapS(i) /\ H4 /\ H5 /\ event' = event)
   /\ Silent
 
 TraceDone == l = Len(Tr) + 1 /\ UNCHANGED tvars
 
-TraceNext == TBodyStart \/ TCkpt \/ TBodyEnd \/ TEvSet \/ TResubmit \/ TBuild \/ TExReturn \/ TParentCkpt \/ SilentStep \/ TraceDone
+TraceNext == TBodyStart \/ TCkpt \/ TBodyEnd \/ TEvSet \/ TResubmit \/ TRefresh \/ TBuild \/ TExReturn \/ TParentCkpt \/ SilentStep \/ TraceDone
 
 TraceSpec == TraceInit /\ [][TraceNext]_tvars
 
